@@ -486,6 +486,13 @@ class Interp:
             return TupleV((IdxV(lid, lay if lay is not None else Unknown("enum"), start), e))
         if isinstance(it, tuple) and it and it[0] == "RANGE":
             return IdxV(lid, Dim(it[1]))
+        if isinstance(it, tuple) and it and it[0] == "ZIPFLAT":
+            row, col = IdxV(lid, Dim(it[1])), IdxV(next(self.loop_ids), Dim(it[2]))
+            return TupleV((TupleV((row, col)), ("FLATREAD", it[3], LinIdx(row, it[2], col))))
+        if isinstance(it, tuple) and it and it[0] == "FLATROW":
+            _, flat, row, stride, width = it
+            col = IdxV(lid, Dim(width))
+            return ("FLATREAD", flat, LinIdx(row, stride, col))
         if isinstance(it, tuple) and it and it[0] == "ITEMS":
             return self.items_elem(it[1], lid)
         if isinstance(it, tuple) and it and it[0] == "KEYS":
@@ -773,6 +780,8 @@ class Interp:
             return ("SCALED", a, b if isinstance(b, SizeV) else (SizeV.const(b.value) if isinstance(b.value, int) else Unknown("stride")))
         if isinstance(op, ast.Mult) and isinstance(b, IdxV) and isinstance(a, (SizeV, Const)):
             return ("SCALED", b, a if isinstance(a, SizeV) else Unknown("stride"))
+        if isinstance(op, ast.Add) and isinstance(a, tuple) and a and a[0] == "SCALED" and isinstance(b, SizeV):
+            return ("SCALEDOFF", a[1], a[2], b)              # row*stride + width: the end of a row slice
         if isinstance(op, ast.Add) and isinstance(a, tuple) and a and a[0] == "SCALED" and isinstance(b, IdxV):
             return LinIdx(a[1], a[2], b)
         if isinstance(op, ast.Add) and isinstance(b, tuple) and b and b[0] == "SCALED" and isinstance(a, IdxV):
@@ -859,6 +868,12 @@ class Interp:
                 return ("MAPGET", base.kind, k)
             return SymV(("value", base.kind))
         if isinstance(base, FlatV):
+            if isinstance(sl, ast.Slice) and sl.step is None and sl.lower is not None and sl.upper is not None:
+                lo, hi = self.ev(sl.lower, env), self.ev(sl.upper, env)
+                if isinstance(lo, tuple) and lo and lo[0] == "SCALED" and isinstance(hi, tuple) and hi and hi[0] == "SCALEDOFF" \
+                        and hi[1] == lo[1] and hi[2] == lo[2]:
+                    return ("FLATROW", base, lo[1], lo[2], hi[3])      # flat[row*S : row*S + width]
+                return Unknown("flat slice")
             i = self.ev(sl, env)
             if isinstance(i, LinIdx):
                 return ("FLATREAD", base, i)
@@ -1077,6 +1092,11 @@ class Interp:
             if isinstance(a0, Const) and isinstance(a0.value, int):
                 return ("RANGE", SizeV.const(a0.value))
             return ("RANGE", Unknown("range arg"))
+        if name == "product":
+            # itertools.product(range(R), range(C)): (row, col) pairs in row-major order
+            if len(args) == 2 and all(isinstance(a, tuple) and a and a[0] == "RANGE" for a in args) and not kwargs:
+                return ("PRODUCT", args[0][1], args[1][1])
+            return Unknown("product()")
         if name == "enumerate":
             start = 0
             if len(args) > 1 and isinstance(args[1], Const):
@@ -1178,6 +1198,9 @@ class Interp:
         return "other"
 
     def do_zip(self, args, env, n):
+        if len(args) == 2 and isinstance(args[0], tuple) and args[0] and args[0][0] == "PRODUCT" and isinstance(unwrap_elem(args[1]), FlatV):
+            # the k-th flat entry is paired with (k // C, k % C): the same as flat[row*C + col]
+            return ("ZIPFLAT", args[0][1], args[0][2], unwrap_elem(args[1]))
         lays = [self.layout_of_iter(a) for a in args]
         elems = []
         for a in args:
@@ -1490,7 +1513,7 @@ def _jac_check(self, yields, env, n):
 
 Interp.check_cpp_statements = _jac_check
 
-BUILTINS = {"reversed", "sorted", "list", "set", "len", "range", "enumerate", "zip", "str", "float", "dict", "isinstance", "print", "abs", "min", "max", "any", "all", "int", "tuple", "type", "iter", "map", "filter", "locals"}
+BUILTINS = {"product", "reversed", "sorted", "list", "set", "len", "range", "enumerate", "zip", "str", "float", "dict", "isinstance", "print", "abs", "min", "max", "any", "all", "int", "tuple", "type", "iter", "map", "filter", "locals"}
 
 
 def to_scalar(v):
